@@ -1190,3 +1190,112 @@ Proof.
   inversion IH as [|? ? Ha Hl]; subst. cbn [forallb] in H2. apply andb_prop in H2 as [Hua Hul].
   cbn [map nodupb] in H1. apply andb_prop in H1 as [_ H1]. split; [now apply Ha|now apply IHl].
 Qed.
+
+(** * iteration interleaved with sets and clears *)
+
+Definition set_at (l : list anode) (i : nat) : bool :=
+  match nth_error l i with Some ch => aisset ch | None => false end.
+
+Lemma first_set_some l : forall s p,
+  first_set l s = Some p ->
+  (s <= p)%nat /\ set_at l p = true /\ forall i, (s <= i < p)%nat -> set_at l i = false.
+Proof.
+  induction l as [|a l IH]; intros s p; [discriminate|].
+  destruct s as [|s].
+  - rewrite first_set_cons_0. destruct (aisset a) eqn:Ea.
+    + intro H. injection H as <-. unfold set_at. cbn. rewrite Ea. repeat split; auto. intros i Hi. lia.
+    + destruct (first_set l O) as [k|] eqn:E; [|discriminate]. cbn. intro H. injection H as <-.
+      destruct (IH O k E) as (_ & Hs & Hb). split; [lia|]. split; [exact Hs|].
+      intros [|i] Hi; [unfold set_at; cbn; exact Ea|]. apply (Hb i). lia.
+  - rewrite first_set_cons_S. destruct (first_set l s) as [k|] eqn:E; [|discriminate]. cbn.
+    intro H. injection H as <-. destruct (IH s k E) as (Hle & Hs & Hb).
+    split; [lia|]. split; [exact Hs|]. intros [|i] Hi; [lia|]. apply (Hb i). lia.
+Qed.
+
+Lemma first_set_none l : forall s, first_set l s = None -> forall i, (s <= i)%nat -> set_at l i = false.
+Proof.
+  induction l as [|a l IH]; intros s H i Hi; [unfold set_at; now destruct i|].
+  destruct s as [|s].
+  - rewrite first_set_cons_0 in H. destruct (aisset a) eqn:Ea; [discriminate|].
+    destruct (first_set l O) eqn:E; [discriminate|].
+    destruct i as [|i]; [unfold set_at; cbn; exact Ea|]. apply (IH O E i). lia.
+  - rewrite first_set_cons_S in H. destruct (first_set l s) eqn:E; [discriminate|].
+    destruct i as [|i]; [lia|]. apply (IH s E i). lia.
+Qed.
+
+(** the step to the next position looks only at the siblings after the current
+    one: whether the current child (or an earlier one) still has a value is irrelevant *)
+Lemma first_set_ext l : forall l' s,
+  (forall i, (s <= i)%nat -> set_at l i = set_at l' i) -> length l = length l' ->
+  first_set l s = first_set l' s.
+Proof.
+  induction l as [|a l IH]; intros [|a' l'] s H Hl; try discriminate; [reflexivity|].
+  destruct s as [|s].
+  - rewrite !first_set_cons_0. pose proof (H O (le_n _)) as H0. unfold set_at in H0. cbn in H0.
+    rewrite H0. destruct (aisset a'); [reflexivity|]. f_equal. apply IH; [|now injection Hl].
+    intros i Hi. apply (H (S i)). lia.
+  - rewrite !first_set_cons_S. f_equal. apply IH; [|now injection Hl].
+    intros i Hi. apply (H (S i)). lia.
+Qed.
+
+(** an iteration whose j-th call (start, next, next, ...) sees the children in
+    state [ks j] (anything may have been set or cleared between the calls) *)
+Fixpoint iter_run (fuel : nat) (ks : nat -> list anode) (j : nat) (start : nat) : list nat :=
+  match fuel with
+  | O => []
+  | S f => match first_set (ks j) start with
+           | Some p => p :: iter_run f ks (S j) (S p)
+           | None => []
+           end
+  end.
+
+(** where the k-th call starts looking *)
+Definition call_start (start : nat) (ps : list nat) (k : nat) : nat :=
+  match k with O => start | S k' => S (nth k' ps O) end.
+
+Theorem iter_run_spec fuel : forall ks j start k p,
+  nth_error (iter_run fuel ks j start) k = Some p ->
+  let s := call_start start (iter_run fuel ks j start) k in
+  (s <= p)%nat /\ set_at (ks (j + k)%nat) p = true /\
+  forall i, (s <= i < p)%nat -> set_at (ks (j + k)%nat) i = false.
+Proof.
+  induction fuel as [|f IH]; intros ks j start k p H; [destruct k; discriminate|].
+  cbn [iter_run] in *. destruct (first_set (ks j) start) as [q|] eqn:E; [|destruct k; discriminate].
+  destruct k as [|k].
+  - cbn in H. injection H as <-. cbn [call_start]. rewrite Nat.add_0_r. now apply first_set_some.
+  - cbn [nth_error] in H. specialize (IH ks (S j) (S q) k p H). cbn zeta in IH.
+    replace (j + S k)%nat with (S j + k)%nat by lia.
+    destruct k as [|k']; cbn [call_start nth] in *; exact IH.
+Qed.
+
+(** positions only move forward: nothing is yielded twice *)
+Lemma iter_run_increasing fuel : forall ks j start p,
+  In p (iter_run fuel ks j start) -> (start <= p)%nat.
+Proof.
+  induction fuel as [|f IH]; intros ks j start p; [intros []|]. cbn [iter_run].
+  destruct (first_set (ks j) start) as [q|] eqn:E; [|intros []].
+  apply first_set_some in E as [Hle _]. intros [<-|Hin]; [exact Hle|].
+  specialize (IH ks (S j) (S q) p Hin). lia.
+Qed.
+
+Lemma iter_run_nodup fuel : forall ks j start, NoDup (iter_run fuel ks j start).
+Proof.
+  induction fuel as [|f IH]; intros ks j start; [constructor|]. cbn [iter_run].
+  destruct (first_set (ks j) start) as [q|]; [|constructor]. constructor; [|apply IH].
+  intro H. apply iter_run_increasing in H. lia.
+Qed.
+
+(** when the iteration ends, no sibling after the last position has a value *)
+Lemma iter_run_end fuel : forall ks j start,
+  (length (iter_run fuel ks j start) < fuel)%nat ->
+  let ps := iter_run fuel ks j start in
+  forall i, (call_start start ps (length ps) <= i)%nat -> set_at (ks (j + length ps)%nat) i = false.
+Proof.
+  induction fuel as [|f IH]; intros ks j start Hl; [lia|]. cbn [iter_run] in *.
+  destruct (first_set (ks j) start) as [q|] eqn:E.
+  - cbn [length] in *. specialize (IH ks (S j) (S q) ltac:(lia)). cbn zeta in IH.
+    intros i Hi. replace (j + S (length (iter_run f ks (S j) (S q))))%nat
+      with (S j + length (iter_run f ks (S j) (S q)))%nat by lia.
+    apply IH. destruct (iter_run f ks (S j) (S q)) as [|x t] eqn:Er; cbn [call_start length nth] in *; exact Hi.
+  - cbn [length call_start]. rewrite Nat.add_0_r. intros i Hi. now apply (first_set_none _ _ E).
+Qed.
